@@ -10,18 +10,11 @@ theorem LocC1.congr {scripts : List (List Op)} {s : St} {i : Nat} {p p' : Proc} 
   · rw [hq]; exact h1
   · rw [hq]; exact h2
 
-theorem resultOf'_back_ok {scripts : List (List Op)} {s s' : St} {i : Nat} {p p' : Proc} (hp : s.procs[i]? = some p)
-    (hF : StepA s s' i p p') (hpc : p.pc ≠ .sRel) {j k : Nat} {op : Op}
-    (h : resultOf' scripts s' j k = some (op, .ok)) : resultOf' scripts s j k = some (op, .ok) := by
-  obtain ⟨l, hl, hok⟩ := hF.results
-  rcases resultOf'_back hp hF hl h with h | ⟨_, _, h6, _⟩
-  · exact h
-  · exact absurd (hok (List.mem_of_getElem? h6)) hpc
-
 theorem UniqOk.of_step {scripts : List (List Op)} {s s' : St} {i : Nat} {p p' : Proc} (hp : s.procs[i]? = some p)
-    (hF : StepA s s' i p p') (hpc : p.pc ≠ .sRel) (h : UniqOk scripts s) : UniqOk scripts s' := by
+    (hF : StepA s s' i p p') (hL : LocA scripts s i p) (hpc : p.pc ≠ .sRel) (h : UniqOk scripts s) :
+    UniqOk scripts s' := by
   intro a k b k' g t t' h1 h2
-  exact h a k b k' g t t' (resultOf'_back_ok hp hF hpc h1) (resultOf'_back_ok hp hF hpc h2)
+  exact h a k b k' g t t' (resultOf'_back_ok hp hF hL hpc h1) (resultOf'_back_ok hp hF hL hpc h2)
 
 theorem EntC.of_step {scripts : List (List Op)} {s s' : St} {i : Nat} {p p' : Proc} (hp : s.procs[i]? = some p)
     (hF : StepA s s' i p p') (hS : StepB s s') (hB : InvB s) (hE : EntC scripts s)
@@ -71,7 +64,7 @@ theorem InvC.step_quiet {scripts : List (List Op)} {s s' : St} {i : Nat} {p p' :
     (hpost : postStore p.pc = true → postStore p'.pc = true ∧ p'.gid = p.gid ∧ p'.text = p.text)
     (hpc : p.pc ≠ .sRel) (h2 : LocC2 scripts s' p') : InvC scripts s' :=
   hC.step_gen hA hp hF hS (((hC.loc1 i p hp).mono hp hF hS).congr hq) h2
-    (hC.entC.of_step hp hF hS hB hback hpost) (hC.uniqOk.of_step hp hF hpc)
+    (hC.entC.of_step hp hF hS hB hback hpost) (hC.uniqOk.of_step hp hF (hA.loc i p hp) hpc)
 
 theorem LocA.op_at {scripts : List (List Op)} {s : St} {i : Nat} {p : Proc} (hL : LocA scripts s i p) {op : Op}
     (hop : curOp p = some op) : ∃ sc, scripts[i]? = some sc ∧ sc[p.results.length]? = some op := by
@@ -93,7 +86,7 @@ theorem InvC.step_finish {scripts : List (List Op)} {s s' : St} {i : Nat} {p p' 
   obtain ⟨sc, hsc, hat⟩ := (hA.loc i p hp).op_at hop
   have hpc : p.pc ≠ .sRel := by intro h; simp [h, postStore] at hpost
   refine hC.step_gen hA hp hF hS ?_ (LocC2.of_entry hent)
-    (hC.entC.of_step hp hF hS hB hback (by simp [hpost])) (hC.uniqOk.of_step hp hF hpc)
+    (hC.entC.of_step hp hF hS hB hback (by simp [hpost])) (hC.uniqOk.of_step hp hF (hA.loc i p hp) hpc)
   refine ((hC.loc1 i p hp).mono hp hF hS).finish hsc hat hres ?_ ?_
   · intro g t h
     obtain ⟨h1, h2⟩ := hst g t h
@@ -127,7 +120,7 @@ set_option hygiene false in
 macro "quietC" : tactic =>
   `(tactic| (
       have hF := StepA.of_step' hA hp hs (p'' := _) (by first | rfl | rw [setProc_procs, release_fst_procs])
-      have hfin := fun g t => (⟨Fin.back hp hF (g := g) (t := t) (by simp [hpc]), Fin.mono hp hF⟩ : _ ↔ Fin scripts s g t)
+      have hfin := fun g t => (⟨Fin.back hp hF hL (g := g) (t := t) (by simp [hpc]), Fin.mono hp hF⟩ : _ ↔ Fin scripts s g t)
       refine InvC.step_quiet hA hB hC hp hF hS (by simp) (by intro g e h; simpa using h) (by simp [hpc, postStore])
         (by simp [hpc]) ?_
       clear hs hF hS
@@ -145,7 +138,7 @@ set_option hygiene false in
 macro "quietC'" : tactic =>
   `(tactic| (
       have hF := StepA.of_step' hA hp hs (p'' := _) (by first | rfl | rw [setProc_procs, release_fst_procs])
-      have hfin := fun g t => (⟨Fin.back hp hF (g := g) (t := t) (by simp [hpc]), Fin.mono hp hF⟩ : _ ↔ Fin scripts s g t)
+      have hfin := fun g t => (⟨Fin.back hp hF hL (g := g) (t := t) (by simp [hpc]), Fin.mono hp hF⟩ : _ ↔ Fin scripts s g t)
       refine InvC.step_quiet hA hB hC hp hF hS (by simp) (by intro g e h; exact extend_back h) (by simp [hpc, postStore])
         (by simp [hpc]) ?_
       clear hs hF hS
@@ -250,6 +243,7 @@ macro "finC " op:term:max r:term:max : tactic =>
 stepC InvC.s_lCnt .lCnt => finC Op.len (Res.nat s.cnt) <;> simp
 stepC InvC.s_cCnt .cCnt => finC Op.contig (Res.bool (p.tmp == s.cnt)) <;> simp
 stepC InvC.s_iRel .iRel => finC Op.iter (Res.texts p.iterAcc) <;> simp
+stepC InvC.s_xClose .xClose => finC Op.close Res.ok <;> simp
 stepC InvC.s_sRelErr .sRelErr =>
   have hst := hLC.postSt (Or.inr hpc)
   finC (Op.store p.gid p.text) Res.valueError
@@ -302,13 +296,13 @@ stepC InvC.s_sIdxSet .sIdxSet =>
     · exact h'
     · simp [List.getElem?_eq_none h'] at hp
   refine hC.step_gen hA hp hF hS (LocC1.congr (p := p) rfl ((hC.loc1 i p hp).mono hp hF hS)) ?_ ?_
-    (hC.uniqOk.of_step hp hF (by simp [hpc]))
+    (hC.uniqOk.of_step hp hF hL (by simp [hpc]))
   · constructor
     · intro _
       rw [stored'_iff]
       exact ⟨(p.ident.getD 0, p.off), by simp [List.getElem?_set_self hlt]⟩
     · intro _ t hf
-      exact hLC.noFin (by simp [hpc, midStore]) t (hf.back hp hF (by simp [hpc]))
+      exact hLC.noFin (by simp [hpc, midStore]) t (hf.back hp hF hL (by simp [hpc]))
     · intro h; simp [rdPc] at h
   · intro g w off c' t h1 h2 h3
     simp only [setProc_index, fileOf_setProc, fileOf_mk_files] at h1 h2
@@ -443,6 +437,7 @@ theorem InvC.step {scripts : List (List Op)} {s s' : St} {i : Nat} (hA : InvA sc
     | fCntZero => exact InvC.s_fCntZero hA hB hC hp hpc hs
     | fWfZero => exact InvC.s_fWfZero hA hB hC hp hpc hs
     | fRel => exact InvC.s_fRel hA hB hC hp hpc hs
+    | xClose => exact InvC.s_xClose hA hB hC hp hpc hs
 
 theorem InvC.init (presize : Nat) (scripts : List (List Op)) : InvC scripts (start (init presize scripts)) := by
   have hres : ∀ (i : Nat) (p : Proc), (start (Storage.init presize scripts)).procs[i]? = some p → p.results = [] := by
